@@ -42,13 +42,22 @@ Lemma not_supported_wm c : supported c p_WritingMode = false.
 Proof.
   unfold supported.
   change (p_WritingMode =? p_DisplayAlign) with false. change (p_WritingMode =? p_Extent) with false.
-  change (p_WritingMode =? p_Origin) with false. change (p_WritingMode =? p_Position) with false.
+  change (p_WritingMode =? p_Origin) with false.
   change (p_WritingMode =? p_TextAlign) with false. change (p_WritingMode =? p_Color) with false.
   change (p_WritingMode =? p_BackgroundColor) with false.
   destruct (c_pta c), (c_color c), (c_bg c); reflexivity.
 Qed.
 Lemma layout_supported c p : layout_key p -> supported c p = true.
 Proof. unfold supported. intros [-> | [-> | ->]]; cbn; reflexivity. Qed.
+Lemma not_rsupported_wm c : rsupported c p_WritingMode = false.
+Proof. unfold rsupported. rewrite not_supported_wm. reflexivity. Qed.
+Lemma layout_rsupported c p : layout_key p -> rsupported c p = true.
+Proof. intros H. apply supported_rsupported, layout_supported, H. Qed.
+Lemma keep_rstyles_all c m : (forall kv, In kv m -> rsupported c (fst kv) = true) -> keep_rstyles c m = m.
+Proof.
+  unfold keep_rstyles. induction m as [|kv m IH]; intros H; cbn [filter]; [reflexivity|].
+  rewrite (H kv (or_introl eq_refl)). f_equal. apply IH. intros x Hx. apply H. right. exact Hx.
+Qed.
 
 (* ---- rational arithmetic of the second pass -------------------------------------------------------------------- *)
 Definition back (z : Z) : Q := Qdiv (Qmult (qz z) (qz 100)) (qz 100).
@@ -96,17 +105,19 @@ Proof.
   assert (shas st p_Extent = true) as Se by (unfold shas; rewrite He; reflexivity).
   assert (shas st p_DisplayAlign = true) as Sd by (unfold shas; rewrite Hd; reflexivity).
   unfold region_layout, region_pre.
-  rewrite So, (compute_origin_pct dd None st _ Ho). cbn [bind].
-  set (s1 := sset st p_Origin _).
-  assert (shas s1 p_Position = false) as P1 by (unfold s1; rewrite shas_sset_neq by discriminate; exact Hp).
-  rewrite P1. cbn [bind].
-  assert (shas s1 p_Origin = true) as O1 by (apply shas_sset_eq). rewrite O1.
-  assert (shas s1 p_Extent = true) as E1 by (unfold s1; rewrite shas_sset_neq by discriminate; exact Se). rewrite E1.
-  assert (sget s1 p_Extent = Some (VExtent (pct (100 - 2 * c_sa c)) (pct (100 - 2 * c_sa c)))) as G1
-    by (unfold s1; rewrite sget_sset_neq by discriminate; exact He).
-  rewrite (compute_extent_pct dd None s1 _ G1). cbn [bind].
-  set (s2 := sset s1 p_Extent _).
-  assert (shas s2 p_Extent = true) as E2 by (apply shas_sset_eq). rewrite E2. cbn [bind].
+  rewrite Se, (compute_extent_pct dd None st _ He). cbn [bind].
+  set (s1 := sset st p_Extent _).
+  assert (shas s1 p_Origin = true) as O1 by (unfold s1; rewrite shas_sset_neq by discriminate; exact So). rewrite O1.
+  assert (sget s1 p_Origin = Some (VCoord (pct (c_sa c)) (pct (c_sa c)))) as G1
+    by (unfold s1; rewrite sget_sset_neq by discriminate; exact Ho).
+  rewrite (compute_origin_pct dd None s1 _ G1). cbn [bind].
+  set (s2 := sset s1 p_Origin _).
+  assert (shas s2 p_Position = false) as P2
+    by (unfold s2, s1; rewrite shas_sset_neq by discriminate; rewrite shas_sset_neq by discriminate; exact Hp).
+  rewrite P2. cbn [bind].
+  assert (shas s2 p_Origin = true) as O2' by (apply shas_sset_eq). rewrite O2'.
+  assert (shas s1 p_Extent = true) as E1 by (apply shas_sset_eq).
+  assert (shas s2 p_Extent = true) as E2 by (unfold s2; rewrite shas_sset_neq by discriminate; exact E1).
   assert (sget s2 p_WritingMode = None) as W2
     by (unfold s2, s1; rewrite sget_sset_neq by discriminate; rewrite sget_sset_neq by discriminate; exact Hw).
   rewrite W2.
@@ -117,9 +128,9 @@ Proof.
   rewrite D2.
   unfold new_display_align.
   assert (sget s2 p_Origin = Some (VCoord (mkLen (back (c_sa c)) Urw) (mkLen (back (c_sa c)) Urh))) as O2
-    by (unfold s2, s1; rewrite sget_sset_neq by discriminate; apply sget_sset_eq).
-  assert (sget s2 p_Extent = Some (VExtent (mkLen (back (100 - 2 * c_sa c)) Urh) (mkLen (back (100 - 2 * c_sa c)) Urw))) as X2
     by (apply sget_sset_eq).
+  assert (sget s2 p_Extent = Some (VExtent (mkLen (back (100 - 2 * c_sa c)) Urh) (mkLen (back (100 - 2 * c_sa c)) Urw))) as X2
+    by (unfold s2; rewrite sget_sset_neq by discriminate; apply sget_sset_eq).
   rewrite O2, X2. cbn [is_enum lv bind orb]. change (e_WritingModeType_lrtb =? e_WritingModeType_lrtb) with true. cbn [orb].
   assert ((if (nda =? e_DisplayAlignType_before) && Qltb (back (c_sa c)) q50 then e_DisplayAlignType_before
            else if Qltb (Qplus (back (c_sa c)) (back (100 - 2 * c_sa c))) q50 then e_DisplayAlignType_before else e_DisplayAlignType_after) = nda) as En.
@@ -134,8 +145,8 @@ Proof.
     by (unfold s4, s3; rewrite shas_sset_neq by discriminate; rewrite shas_sset_neq by discriminate; exact E2).
   assert (skeys (sset s4 p_Extent (VExtent (pct (100 - 2 * c_sa c)) (pct (100 - 2 * c_sa c)))) = skeys st) as Ek.
   { rewrite (skeys_sset_present _ _ _ Se4). unfold s4. rewrite (skeys_sset_present _ _ _ So3). unfold s3.
-    rewrite (skeys_sset_present _ _ _ Sd2). unfold s2. rewrite (skeys_sset_present _ _ _ E1). unfold s1.
-    apply (skeys_sset_present _ _ _ So). }
+    rewrite (skeys_sset_present _ _ _ Sd2). unfold s2. rewrite (skeys_sset_present _ _ _ O1). unfold s1.
+    apply (skeys_sset_present _ _ _ Se). }
   apply smap_ext.
   - exact Ek.
   - rewrite Ek. exact Hn.
@@ -143,7 +154,7 @@ Proof.
     destruct (Z.eq_dec p p_Extent) as [-> | Ne]; [rewrite sget_sset_eq; symmetry; exact He|]. rewrite sget_sset_neq by exact Ne. unfold s4.
     destruct (Z.eq_dec p p_Origin) as [-> | No]; [rewrite sget_sset_eq; symmetry; exact Ho|]. rewrite sget_sset_neq by exact No. unfold s3.
     destruct (Z.eq_dec p p_DisplayAlign) as [-> | Nd]; [rewrite sget_sset_eq; symmetry; exact Hd|]. rewrite sget_sset_neq by exact Nd.
-    unfold s2, s1. rewrite sget_sset_neq by exact Ne. rewrite sget_sset_neq by exact No. reflexivity.
+    unfold s2, s1. rewrite sget_sset_neq by exact No. rewrite sget_sset_neq by exact Ne. reflexivity.
 Qed.
 
 (* ---- facts about the first pass -------------------------------------------------------------------------------------- *)
@@ -154,23 +165,23 @@ Proof.
   intros H. inversion H. repeat match goal with |- context [if ?b then _ else _] => destruct b end; auto.
 Qed.
 Lemma region_layout_first c d inits st0 st wm nda : region_layout c d inits st0 = Ok (st, wm, nda) ->
-  (forall kv, In kv st0 -> supported c (fst kv) = true) -> sget inits p_WritingMode = None ->
+  (forall kv, In kv st0 -> rsupported c (fst kv) = true) -> sget inits p_WritingMode = None ->
   wm = e_WritingModeType_lrtb /\ before_or_after nda /\ sget st p_WritingMode = None /\
-  (forall kv, In kv st -> supported c (fst kv) = true).
+  (forall kv, In kv st -> rsupported c (fst kv) = true).
 Proof.
   intros H Hs Hiw. pose proof (region_layout_final _ _ _ _ _ _ _ H) as [[V _] _].
-  assert (forall kv, In kv st -> supported c (fst kv) = true) as Hall.
-  { intros kv Hkv. destruct (V _ Hkv) as [Hl|Hl]; [apply layout_supported, Hl | apply Hs, Hl]. }
+  assert (forall kv, In kv st -> rsupported c (fst kv) = true) as Hall.
+  { intros kv Hkv. destruct (V _ Hkv) as [Hl|Hl]; [apply layout_rsupported, Hl | apply Hs, Hl]. }
   unfold region_layout in H. destruct (region_pre d inits st0) as [s|] eqn:Ep; cbn [bind] in H; [|discriminate].
   apply region_pre_evolved in Ep as [[Vs _] _].
   assert (sget s p_WritingMode = None) as Ws.
-  { apply sget_None_keys. intros kv Hkv E. pose proof (not_supported_wm c) as Hn.
-    destruct (Vs _ Hkv) as [Hl|Hl]; [apply (layout_supported c) in Hl | apply Hs in Hl]; rewrite E in Hl; congruence. }
+  { apply sget_None_keys. intros kv Hkv E. pose proof (not_rsupported_wm c) as Hn.
+    destruct (Vs _ Hkv) as [Hl|Hl]; [apply (layout_rsupported c) in Hl | apply Hs in Hl]; rewrite E in Hl; congruence. }
   rewrite Ws in H.
   destruct (new_display_align _ _ s) as [n|] eqn:En; cbn [bind] in H; [|discriminate]. inversion H; subst. clear H.
   split; [unfold init_or; rewrite Hiw; reflexivity|]. split; [exact (new_display_align_range _ _ _ _ En)|].
   split; [|exact Hall].
-  apply sget_None_keys. intros kv Hkv E. pose proof (not_supported_wm c) as Hn. apply Hall in Hkv. rewrite E in Hkv. congruence.
+  apply sget_None_keys. intros kv Hkv E. pose proof (not_rsupported_wm c) as Hn. apply Hall in Hkv. rewrite E in Hkv. congruence.
 Qed.
 
 (* ---- cleaning twice ------------------------------------------------------------------------------------------------------ *)
@@ -183,14 +194,23 @@ Lemma clean_elem_idem c e : style_elem c (anim_elem (style_elem c (anim_elem e))
 Proof.
   unfold style_elem, anim_elem. rewrite !map_attrs_compose. apply map_attrs_ext. intros a _. apply clean_attrs_idem.
 Qed.
-Lemma clean_region_again c r st : keep_styles c st = st ->
-  let r1 := style_elem c (anim_elem r) in
-  style_elem c (anim_elem (Elem (with_styles (eattrs r1) st) (echildren r1))) = Elem (with_styles (eattrs r1) st) (echildren r1).
+Lemma rclean_attrs_idem c a : rstyle_attrs c (anim_attrs (rstyle_attrs c (anim_attrs a))) = rstyle_attrs c (anim_attrs a).
 Proof.
-  intros Hk. destruct r as [a cs]. cbn [style_elem anim_elem map_attrs eattrs echildren]. f_equal.
-  - unfold style_attrs, anim_attrs, with_styles, with_anims.
+  unfold rstyle_attrs, anim_attrs, with_styles, with_anims.
+  cbn [e_styles e_kind e_id e_begin e_end e_region e_anims e_preserve e_lang e_text]. rewrite keep_rstyles_idem. reflexivity.
+Qed.
+Lemma rclean_elem_idem c e : rstyle_elem c (anim_elem (rstyle_elem c (anim_elem e))) = rstyle_elem c (anim_elem e).
+Proof.
+  unfold rstyle_elem, anim_elem. rewrite !map_attrs_compose. apply map_attrs_ext. intros a _. apply rclean_attrs_idem.
+Qed.
+Lemma clean_region_again c r st : keep_rstyles c st = st ->
+  let r1 := rstyle_elem c (anim_elem r) in
+  rstyle_elem c (anim_elem (Elem (with_styles (eattrs r1) st) (echildren r1))) = Elem (with_styles (eattrs r1) st) (echildren r1).
+Proof.
+  intros Hk. destruct r as [a cs]. cbn [rstyle_elem anim_elem map_attrs eattrs echildren]. f_equal.
+  - unfold rstyle_attrs, anim_attrs, with_styles, with_anims.
     cbn [e_styles e_kind e_id e_begin e_end e_region e_anims e_preserve e_lang e_text]. rewrite Hk. reflexivity.
-  - rewrite !map_map. apply map_ext. intros x. apply (clean_elem_idem c x).
+  - rewrite !map_map. apply map_ext. intros x. apply (rclean_elem_idem c x).
 Qed.
 
 (* ---- the region loop, second pass ------------------------------------------------------------------------------------------ *)
@@ -201,20 +221,21 @@ Proof.
   intros H. induction H; intros Hu Hiw Hsa.
   - reflexivity.
   - unfold retained_of. cbn [flat_map snd fst app]. fold (retained_of out).
-    destruct H as [st [Hl ->]]. set (r1 := style_elem c (anim_elem r)) in *.
-    assert (forall kv, In kv (e_styles (eattrs r1)) -> supported c (fst kv) = true) as Hsup.
-    { unfold r1. rewrite eattrs_clean. cbn [e_styles style_attrs with_styles]. intros kv Hkv. apply In_keep_styles in Hkv. tauto. }
+    destruct H as [st [Hl ->]]. set (r1 := rstyle_elem c (anim_elem r)) in *.
+    assert (forall kv, In kv (e_styles (eattrs r1)) -> rsupported c (fst kv) = true) as Hsup.
+    { unfold r1. rewrite eattrs_clean. cbn [e_styles rstyle_attrs with_styles]. intros kv Hkv. apply In_keep_rstyles in Hkv. tauto. }
     assert (NoDup (skeys (e_styles (eattrs r1)))) as Hn0.
-    { unfold r1. rewrite eattrs_clean. cbn [e_styles style_attrs with_styles anim_attrs with_anims]. apply NoDup_keep_styles, Hu. left. reflexivity. }
+    { unfold r1. rewrite eattrs_clean. cbn [e_styles rstyle_attrs with_styles anim_attrs with_anims]. apply NoDup_keep_rstyles, Hu. left. reflexivity. }
     pose proof (region_layout_final _ _ _ _ _ _ _ Hl) as [[_ Vn] [Pn [Ho [He Hd]]]].
     pose proof (region_layout_first _ _ _ _ _ _ _ Hl Hsup Hiw) as [Ew [Hba [Hw Hall]]].
     cbn [lcd_regions].
-    pose proof (clean_region_again c r st (keep_styles_all _ _ Hall)) as Hc. cbv zeta in Hc. fold r1 in Hc. rewrite Hc.
+    pose proof (clean_region_again c r st (keep_rstyles_all _ _ Hall)) as Hc. cbv zeta in Hc. fold r1 in Hc. rewrite Hc.
     cbn [eattrs echildren e_styles with_styles].
     rewrite (region_layout_again c dd inits st nda (Vn Hn0)); try assumption.
     + cbn [bind e_begin e_end with_styles].
-      assert ((or0 (e_begin (eattrs r1)), e_end (eattrs r1), e_WritingModeType_lrtb, nda) = region_fp r wm nda) as Ef
-        by (unfold r1; rewrite eattrs_clean, Ew; reflexivity).
+      assert ((or0 (e_begin (eattrs r1)), e_end (eattrs r1), e_WritingModeType_lrtb, nda, fp_align c st) =
+              region_fp c r (Elem (with_styles (eattrs r1) st) (echildren r1)) wm nda) as Ef
+        by (unfold region_fp, r1; rewrite eattrs_clean, Ew; reflexivity).
       rewrite Ef, H0.
       assert (rid (with_styles (eattrs r1) st) = rid (eattrs r)) as Er by (unfold r1; rewrite eattrs_clean; reflexivity).
       rewrite Er, IHloop_rel; [reflexivity | intros x Hx; apply Hu; right; exact Hx | exact Hiw | exact Hsa].
@@ -261,7 +282,7 @@ Lemma supported_bg_false c col : c_bg c = Some col -> supported c p_BackgroundCo
 Proof.
   intros H. unfold supported. rewrite H.
   change (p_BackgroundColor =? p_DisplayAlign) with false. change (p_BackgroundColor =? p_Extent) with false.
-  change (p_BackgroundColor =? p_Origin) with false. change (p_BackgroundColor =? p_Position) with false.
+  change (p_BackgroundColor =? p_Origin) with false.
   change (p_BackgroundColor =? p_TextAlign) with false. change (p_BackgroundColor =? p_Color) with false.
   destruct (c_pta c), (c_color c); reflexivity.
 Qed.
@@ -269,7 +290,7 @@ Lemma supported_color_false c col : c_color c = Some col -> supported c p_Color 
 Proof.
   intros H. unfold supported. rewrite H.
   change (p_Color =? p_DisplayAlign) with false. change (p_Color =? p_Extent) with false.
-  change (p_Color =? p_Origin) with false. change (p_Color =? p_Position) with false.
+  change (p_Color =? p_Origin) with false.
   change (p_Color =? p_TextAlign) with false. change (p_Color =? p_BackgroundColor) with false.
   destruct (c_pta c), (c_bg c); reflexivity.
 Qed.
@@ -277,7 +298,7 @@ Lemma supported_ta_false c : c_pta c = false -> supported c p_TextAlign = false.
 Proof.
   intros H. unfold supported. rewrite H.
   change (p_TextAlign =? p_DisplayAlign) with false. change (p_TextAlign =? p_Extent) with false.
-  change (p_TextAlign =? p_Origin) with false. change (p_TextAlign =? p_Position) with false.
+  change (p_TextAlign =? p_Origin) with false.
   change (p_TextAlign =? p_Color) with false. change (p_TextAlign =? p_BackgroundColor) with false.
   destruct (c_color c), (c_bg c); reflexivity.
 Qed.
